@@ -15,7 +15,7 @@ EXPLANATION = ("Closed obligations (eval, exhaustive): every entry of the five a
 
 
 def units(tier):
-    return (([A.U_FF0, A.U_FFN] + A.U_FXRAY_KEYS + [K.L_REGISTRATION]) + W.U_MFF + [A.U_FXRAYATQ, A.U_XRAY_F0, A.U_XRAY_ELEMENT_SYMBOL]) + LD.U_COVALENT_ROW + LD.U_CRYSTAL_ROW + [LD.U_SPECTRAL_ROW]
+    return (([A.U_FF0, A.U_FFN] + A.U_FXRAY_KEYS + [K.L_REGISTRATION]) + W.U_MFF + [A.U_FXRAYATQ, A.U_XRAY_F0, A.U_XRAY_ELEMENT_SYMBOL]) + LD.U_COVALENT_ROW + LD.U_CRYSTAL_ROW + [LD.U_SPECTRAL_ROW] + LD.U_MAGNETIC_ROW
 
 
 def runner_tasks(tier):
